@@ -222,3 +222,43 @@ Proof.
   unfold pde_ops_ok. destruct xdep; intros H x Hx; [|exact H].
   rewrite forallb_forall in H. apply H. apply Hx. reflexivity.
 Qed.
+
+(* the permutation matrix is THE Jacobian of Image2D(order='F').par2fun *)
+Corollary imgF_jacobian_unique dg r c w h v :
+  imgF_geo dg r c -> length w = (r * c)%nat -> length h = (r * c)%nat -> length v = (r * c)%nat ->
+  dir_deriv (g_par2fun dg) w h (img_par2fun r c w) v -> v = qmatvec (img_perm r c) h.
+Proof.
+  intros Hdg Lw Lh Lv Hv.
+  apply (dir_deriv_unique (g_par2fun dg) w h (img_par2fun r c w) v (qmatvec (img_perm r c) h)).
+  - rewrite img_par2fun_length. exact Lv.
+  - rewrite img_par2fun_length. unfold qmatvec. etransitivity; [apply matvec_length | apply img_perm_length].
+  - exact Hv.
+  - apply imgF_jacobian_law; assumption.
+Qed.
+
+(* the finite-difference conjunct: the observed difference quotient of forward() is J h for the J of the instance *)
+Lemma check_fd_sound A csF dg w h obs : check_fd false A csF dg w h obs = true ->
+  exists JG wf, geo_jac dg w = Some JG /\ g_par2fun dg w = Ok wf /\
+    qvec obs = qmatvec (qmatmul (length w) (poly_jac A (pderiv csF) wf) JG) h.
+Proof.
+  unfold check_fd, chain_rule_jvp. destruct (geo_jac dg w) as [JG|]; [|discriminate].
+  destruct (g_par2fun dg w) as [wf|]; [|discriminate]. intros H. apply qcl_eqb_eq in H.
+  exists JG, wf. repeat split. symmetry. exact H.
+Qed.
+
+(* the 7-point central difference used by the `fd/*` cells is EXACT for polynomials of degree <= 6:
+   (-F(-3) + 9 F(-2) - 45 F(-1) + 45 F(1) - 9 F(2) + F(3)) = 60 F'(0) *)
+Definition q2 : Qc := 1 + 1.
+Definition q3 : Qc := 1 + 1 + 1.
+Definition q9 : Qc := q3 * q3.
+Definition q45 : Qc := q9 * (q2 + q3).
+Definition q60 : Qc := q2 * q2 * q3 * (q2 + q3).
+
+Lemma stencil7_exact a0 a1 a2 a3 a4 a5 a6 :
+  let F := peval [a0; a1; a2; a3; a4; a5; a6] in
+  - F (- q3) + q9 * F (- q2) - q45 * F (- (1)) + q45 * F 1 - q9 * F q2 + F q3 = q60 * a1.
+Proof. intros F. unfold F, peval, q60, q45, q9, q3, q2. cbn [fold_right]. ring. Qed.
+
+(* ... and the derivative of t |-> f(w + t h) at 0 is the linear coefficient the derivative laws speak about *)
+Lemma q_constants : q2 = qcz 2 /\ q3 = qcz 3 /\ q9 = qcz 9 /\ q45 = qcz 45 /\ q60 = qcz 60.
+Proof. repeat split; apply Qc_is_canon; reflexivity. Qed.
